@@ -1,5 +1,11 @@
 import json,sys
 pid=sys.argv[1]
+va,vb=(sys.argv[2],sys.argv[3]) if len(sys.argv)>3 else ('a','b')
+import glob,os
+taken=[]
+for d in sorted(glob.glob('/verif/seeded/'+pid+'-*')):
+    try: taken.append(json.load(open(d+'/meta.json')).get('summary',''))
+    except Exception: pass
 for l in open('/verif/properties.jsonl'):
     p=json.loads(l)
     if p['id']==pid: break
@@ -13,10 +19,10 @@ Code it is anchored in: {', '.join(p['anchors']['files'])}
 
 Your scratch git worktree of the library is /tmp/seed/{pid} (detached HEAD, yours alone). Work ONLY there and in your output directory /tmp/seed-out/{pid}/. Do NOT read, list or use anything under /verif or /root/.vp, and do not touch /repo itself — your changes must be independent of any existing verification machinery.
 
-Requirements for each of the two changes (call them a and b; they must differ in site and mechanism):
+Requirements for each of the two changes (call them {va} and {vb}; they must differ in site and mechanism):
 1. It needs something SPECIFIC to manifest: a particular interleaving, a fault at a particular point, a multi-step sequence of operations, an unusual input or configuration, or two cooperating sites that each look fine alone. Ordinary happy-path use must keep working.
 2. The library compiles and the full existing suite passes with the change: run, in the worktree,  `GOFLAGS=-mod=mod GOPROXY=off go test -vet=off -count=1 ./... 2>&1 | tail -30`  (no network is available; do not set GOTOOLCHAIN or GOSUMDB; it takes about a minute) and check every package reports ok (three network-dependent tests — pkg/client TestDiscover/spotify, pkg/client/rs TestNewResourceServer and TestIntrospect — fail in this sandbox with and without any change; ignore exactly those).
-3. A demonstration: a Go test file (put it in the appropriate package directory of the worktree, name it zz_seed_{pid.lower()}<a|b>_test.go) that FAILS with the change and PASSES on the unchanged code. Verify both directions yourself (save the change with `git diff > patch.diff`, go back with `git checkout -- .` and forth with `git apply patch.diff`; do NOT use `git stash`: the stash is shared with other worktrees of this repository). The demonstration must show a violation of the property statement above (not just 'behaviour changed').
+3. A demonstration: a Go test file (put it in the appropriate package directory of the worktree, name it zz_seed_{pid.lower()}<{va}|{vb}>_test.go) that FAILS with the change and PASSES on the unchanged code. Verify both directions yourself (save the change with `git diff > patch.diff`, go back with `git checkout -- .` and forth with `git apply patch.diff`; do NOT use `git stash`: the stash is shared with other worktrees of this repository). The demonstration must show a violation of the property statement above (not just 'behaviour changed').
 4. Keep the change small (typically 1-15 lines) and compile-clean; do not modify existing test files.
 
-Deliverables in /tmp/seed-out/{pid}/a/ and /tmp/seed-out/{pid}/b/ : `patch.diff` (output of `git diff` for the library change ONLY, without the demo test, applicable with `git apply` at the worktree's HEAD), the demo test file (copy), and `meta.json` = {{"property":"{pid}","summary":"<one sentence: what was changed>","needs":"<what specific input/sequence/interleaving/fault/config is needed for it to manifest>","why_tests_pass":"<why the existing suite does not notice>","demo":"<file name and the go test command to run it>","ran":["<commands you ran and their outcome>"]}}. Leave the worktree at a clean HEAD state when you finish (git checkout -- . and remove untracked files). In your final message give a short description of both changes and confirm what you verified.""")
+Deliverables in /tmp/seed-out/{pid}/{va}/ and /tmp/seed-out/{pid}/{vb}/ : `patch.diff` (output of `git diff` for the library change ONLY, without the demo test, applicable with `git apply` at the worktree's HEAD), the demo test file (copy), and `meta.json` = {{"property":"{pid}","summary":"<one sentence: what was changed>","needs":"<what specific input/sequence/interleaving/fault/config is needed for it to manifest>","why_tests_pass":"<why the existing suite does not notice>","demo":"<file name and the go test command to run it>","ran":["<commands you ran and their outcome>"]}}. Leave the worktree at a clean HEAD state when you finish (git checkout -- . and remove untracked files). In your final message give a short description of both changes and confirm what you verified.""" + ("\n\nOther people have already produced the following changes for this property; yours must be DIFFERENT in site and mechanism from all of them, and should look at parts of the statement they leave untouched:\n- " + "\n- ".join(taken) if taken else ""))
